@@ -128,3 +128,22 @@ def add_rare(rng, m, pexp=127):
             m["rew"][s][a] = [r + c[s][a] for r in m["rew"][s][a]]
     m["rare"] = {"c": c, "pexp": pexp, "next": rng.randrange(m["ns"])}
     return m
+
+
+def bits_and_ring(rng, q=3, nstoch=3):
+    """Union of a deterministic ring of period q (keeps the period-span measure of a solver with another period from
+    ever falling: no early stop) and a stochastic component with probabilities 1/2 (every sweep adds one fractional
+    bit to its values): undiscounted runs on it reach iterates with more than 24 significant bits inside the exactly
+    judged range."""
+    r = ring(rng, q, extra=0, na=2, rmax=2)
+    for s in range(r["ns"]):
+        for a in range(2):
+            r["next"][s][a] = r["next"][s][a] * 2
+            r["rew"][s][a] = [r["rew"][s][a][0] + (3 if s == 0 else 0)] * 2      # unequal rewards around the ring
+            r["pk"][s][a] = [2, 0]
+    r["ne"], r["PD"] = 2, 2
+    u = T.random_mdp(rng, ns=nstoch, na=2, ne=2, PD=2, rmax=2, sparse=False, plain_render=True)
+    for s in range(nstoch):
+        for a in range(2):
+            u["pk"][s][a] = [1, 1]
+    return T.union_mdp([r, u], rng, plain_render=True)
